@@ -116,12 +116,33 @@ func (m *Machine) yield(vals []Value) []Value {
 	if co == nil {
 		m.rtError("attempt to yield from outside a coroutine")
 	}
+	if m.yieldBlocked() {
+		// Lua 5.1: a coroutine cannot be suspended while a host (C) function that called back into Lua is
+		// on its stack - pcall/xpcall, a metamethod, a generic-for iterator, a sort comparator, a gsub
+		// callback, an error handler, a host function
+		m.rtError("attempt to yield across metamethod/C-call boundary")
+	}
 	co.yieldCh <- coMsg{kind: "yield", vals: vals}
 	msg := <-co.resumeCh
 	if msg.kind == "kill" {
 		panic(killSignal{})
 	}
 	return msg.vals
+}
+
+// yieldBlocked reports whether a host-function boundary lies between the running coroutine's base and
+// the current point (the __call metamethod is resolved by the call instruction itself and is none).
+func (m *Machine) yieldBlocked() bool {
+	for i := len(m.ctx) - 1; i >= 0; i-- {
+		switch m.ctx[i] {
+		case "co":
+			return false
+		case "callmeta":
+		default:
+			return true
+		}
+	}
+	return false
 }
 
 // killAll unwinds the goroutines of coroutines that are still suspended.
